@@ -135,7 +135,11 @@ pub fn eval_connect(c: &ConnectCase) -> CaseOut {
                             ("will-payload", cp.will.as_ref().map(|x| x.payload.clone()) == w.map(|x| x.data.clone())),
                             ("will-qos", cp.will.as_ref().map(|x| x.qos) == w.map(|x| x.qos)),
                             ("will-retain", cp.will.as_ref().map(|x| x.retain) == w.map(|x| x.retain)),
-                            ("will-properties", cp.will.as_ref().map(|x| x.props.clone()) == w.map(|x| x.props.clone())),
+                            ("will-properties", match (cp.will.as_ref(), w) {
+                                (Some(x), Some(y)) => mr::props_equiv(&x.props, &y.props),
+                                (None, None) => true,
+                                _ => false,
+                            }),
                         ];
                         for (name, ok) in checks {
                             if !ok {
@@ -314,7 +318,7 @@ pub fn eval_pub(c: &PubCase) -> CaseOut {
                             ("qos", pp.qos == c.qos),
                             ("retain", pp.retain == c.retain),
                             ("dup", !pp.dup),
-                            ("properties", pp.props == want_props),
+                            ("properties", mr::props_equiv(&pp.props, &want_props)),
                             ("packet-id", (c.qos > 0) == pp.pid.is_some()),
                         ];
                         for (name, ok) in checks {
@@ -500,7 +504,7 @@ pub fn eval_sub(c: &SubCase) -> CaseOut {
                         if filters != want {
                             flag(&mut viol, "subscribe-field", "filters", format!("SUBSCRIBE decodes to {:?}, requested {:?}", filters.iter().map(|f| (f.0.len(), f.1)).collect::<Vec<_>>(), c));
                         }
-                        if props != props_ref {
+                        if !mr::props_equiv(&props, &props_ref) {
                             flag(&mut viol, "subscribe-field", "properties", format!("SUBSCRIBE carries {:?}, requested {:?}", props, props_ref));
                         }
                     }
@@ -509,7 +513,7 @@ pub fn eval_sub(c: &SubCase) -> CaseOut {
                         if filters != want {
                             flag(&mut viol, "unsubscribe-field", "filters", format!("UNSUBSCRIBE decodes to {} filters, requested {:?}", filters.len(), c));
                         }
-                        if props != props_ref {
+                        if !mr::props_equiv(&props, &props_ref) {
                             flag(&mut viol, "unsubscribe-field", "properties", format!("UNSUBSCRIBE carries {:?}, requested {:?}", props, props_ref));
                         }
                     }
@@ -637,7 +641,7 @@ pub fn eval_disc(c: &DiscCase) -> CaseOut {
                         if reason != want_reason {
                             flag(&mut viol, "disconnect-field", "reason", format!("DISCONNECT carries reason 0x{:02x}, requested {:?}", reason, c.reason));
                         }
-                        if props != props_ref {
+                        if !mr::props_equiv(&props, &props_ref) {
                             flag(&mut viol, "disconnect-field", "properties", format!("DISCONNECT carries {:?}, requested {:?}", props, props_ref));
                         }
                     }
